@@ -220,6 +220,7 @@ pub struct BlameHunk {
     pub committer_time: i64,
     pub committer_tz: String,
     pub is_boundary: bool,
+    pub filename: String,
 }
 //#end
 //#item file=src/commands/blame.rs kind=struct name=GitAiBlameOptions
@@ -344,6 +345,14 @@ pub open spec fn range_rem(rem: Seq<u32>, start: int, end: int) -> bool {
     &&& rem.len() == (if start <= end { end - start + 1 } else { 0 })
     &&& forall|i: int| 0 <= i < rem.len() ==> (#[trigger] rem[i]) == start + i
 }
+/// the path the originating commit's note is searched for: the path git reports for the hunk (`filename <path>` of the blame
+/// group, kept by the porcelain parser - unit porcelain), the path given on the command line only when git reported none
+pub open spec fn note_path_of(h: BlameHunk, file: Seq<char>) -> Seq<char> { if h.filename@.len() == 0 { file } else { h.filename@ } }
+/// `String::is_empty`
+#[verifier::external_body]
+fn opq_is_empty(s: &String) -> (r: bool)
+    ensures r == (s@.len() == 0),
+{ unimplemented!() }
 /// O1 stubs: `.to_string()` on an owned String; `"Unknown".to_string()`; the two bookkeeping maps (frame only: they do not
 /// touch `line_authors`, which they do not receive)
 #[verifier::external_body]
@@ -386,27 +395,35 @@ proof fn lemma_found_has_hash(log: AuthorshipLog, file: Seq<char>, line: u32, r:
     assert(lookup_post(log.attestations@[i].entries@, log.metadata, line, r));
 }
 
-//#item file=src/commands/blame.rs kind=region name=ov_hunk in=overlay_ai_authorship from="if let Some(authorship_log) = authorship_log {" to="$block_end" from_nth=0 to_nth=0 opaque='[{"expr": "prompt_commits.entry(prompt_hash.clone()).or_default().insert(hunk.commit_sha.clone())", "call": "opq_note_commit(&mut prompt_commits, &prompt_hash, &hunk.commit_sha)"}, {"expr": "prompt_records.insert(prompt_hash, prompt_record.clone())", "call": "opq_record_prompt(&mut prompt_records, prompt_hash, &prompt_record)"}, {"expr": "CheckpointKind::Human.to_str().to_string()", "call": "opq_owned(CheckpointKind::Human.to_str())"}, {"expr": "\"Unknown\".to_string()", "call": "opq_unknown_name()"}]'
+//#item file=src/commands/blame.rs kind=region name=ov_hunk in=overlay_ai_authorship from="if let Some(authorship_log) = authorship_log {" to="$block_end" from_nth=0 to_nth=0 opaque='[{"expr": "prompt_commits.entry(prompt_hash.clone()).or_default().insert(hunk.commit_sha.clone())", "call": "opq_note_commit(&mut prompt_commits, &prompt_hash, &hunk.commit_sha)"}, {"expr": "prompt_records.insert(prompt_hash, prompt_record.clone())", "call": "opq_record_prompt(&mut prompt_records, prompt_hash, &prompt_record)"}, {"expr": "CheckpointKind::Human.to_str().to_string()", "call": "opq_owned(CheckpointKind::Human.to_str())"}, {"expr": "\"Unknown\".to_string()", "call": "opq_unknown_name()"}, {"expr": "hunk.filename.is_empty()", "call": "opq_is_empty(&hunk.filename)"}]'
 //@ fn region_ov_hunk(authorship_log: Option<AuthorshipLog>, hunk: &BlameHunk, repo: &Repository, file_path: &str, options: &GitAiBlameOptions, line_authors0: HashMap<u32, String>, prompt_records0: HashMap<String, PromptRecord>, prompt_commits0: HashMap<String, std::collections::HashSet<String>>, foreign_prompts_cache0: HashMap<String, Option<PromptRecord>>) -> (r_: HashMap<u32, String>)
 //@     requires hunk_wf(*hunk),
 //@     ensures
 //@         // lines outside the hunk keep what they had
 //@         kept_outside(r_@, line_authors0@, hunk.range.0, hunk.range.1 + 1),
-//@         // with a note: every current line of the hunk shows what the note says about its ORIGINAL line number
-//@         authorship_log is Some ==> forall|l: u32| hunk.range.0 <= l <= hunk.range.1 ==> line_ok(r_@, authorship_log.unwrap(), file_path@, *options, *hunk, l),
+//@         // with a note: every current line of the hunk shows what the note says about its ORIGINAL line number, searched under
+//@         // the path the file had in the ORIGINATING commit (note_path_of: the hunk's `filename`; the command-line path only when git reported none)
+//@         authorship_log is Some ==> forall|l: u32| hunk.range.0 <= l <= hunk.range.1 ==> line_ok(r_@, authorship_log.unwrap(), note_path_of(*hunk, file_path@), *options, *hunk, l),
 //@         // without a note: every line of the hunk gets the no-note name
 //@         authorship_log is None ==> forall|l: u32| hunk.range.0 <= l <= hunk.range.1 ==> r_@.contains_key(l) && r_@[l]@ == no_note_name(*options, *hunk),
 //@ {
 //@     let mut line_authors = line_authors0; let mut prompt_records = prompt_records0; let mut prompt_commits = prompt_commits0; let mut foreign_prompts_cache = foreign_prompts_cache0;
-//@     let ghost m0 = line_authors0@; let ghost h = *hunk; let ghost o = *options; let ghost fp = file_path@;
+//@     let ghost m0 = line_authors0@; let ghost h = *hunk; let ghost o = *options; let ghost fp = note_path_of(*hunk, file_path@);
         if let Some(authorship_log) = authorship_log {
             //@ let ghost log = authorship_log;
+            // The note of the originating commit lists the file under the path it had in THAT commit
+            let note_path = if opq_is_empty(&hunk.filename) {
+                file_path
+            } else {
+                hunk.filename.as_str()
+            };
+            //@ proof { assert(note_path@ == fp); }
             // Check each line in this hunk for AI authorship using compact schema
             // IMPORTANT: Use the original line numbers from the commit, not the current line numbers
             let num_lines = hunk.range.1 - hunk.range.0 + 1;
             for i in it_0: 0..num_lines
             //@     invariant
-            //@         hunk_wf(h), h == *hunk, o == *options, fp == file_path@, log == authorship_log, m0 == line_authors0@,
+            //@         hunk_wf(h), h == *hunk, o == *options, fp == note_path_of(h, file_path@), note_path@ == fp, log == authorship_log, m0 == line_authors0@,
             //@         num_lines == h.range.1 - h.range.0 + 1,
             //@         kept_outside(line_authors@, m0, h.range.0, h.range.0 + it_0.index@),
             //@         forall|l: u32| h.range.0 <= l && (l as int) < h.range.0 + it_0.index@ ==> line_ok(line_authors@, log, fp, o, h, l),
@@ -421,7 +438,7 @@ proof fn lemma_found_has_hash(log: AuthorshipLog, file: Seq<char>, line: u32, r:
 
                 if let Some((author, prompt_hash, prompt)) = authorship_log.get_line_attribution(
                     repo,
-                    file_path,
+                    note_path,
                     orig_line_num,
                     &mut foreign_prompts_cache,
                 ) {
